@@ -10,7 +10,7 @@ mod verif_oracle_prio3 {
 
     #[test]
     fn oracle_vs2m() {
-        let vdaf = Prio3::new(3, 2, 0xFFFF_0000, SumVec::<Field128, ParallelSum<Field128, Mul>>::new(3, 2, 2).unwrap()).unwrap();
+        let vdaf: Prio3<SumVec<Field128, ParallelSum<Field128, Mul>>, XofTurboShake128, 32> = Prio3::new(3, 2, 0xFFFF_0000, SumVec::new(3, 2, 2).unwrap()).unwrap();
         let nonce = [3u8; 16];
         let vk = [5u8; 32];
         let (public_share, input_shares) = vdaf.shard(b"ctx", &vec![1u128, 2], &nonce).unwrap();
@@ -48,6 +48,39 @@ mod verif_oracle_prio3 {
             t[k].joint_rand_part = Some(part);
             if let Ok(Ok(m)) = run(t) {
                 if m.joint_rand_seed == base.joint_rand_seed { println!("COUNTEREXAMPLE Prio3::verifier_shares_to_message: changing the joint randomness part of share {} does not change the joint randomness seed", k); }
+            }
+        }
+    }
+
+    // Executable form of "helper input shares are a function of the sharding randomness only" (units prio3_shard_tail / Kani p3_shard_seeds_*):
+    // for 2..=9 aggregators, with and without joint randomness, two DIFFERENT measurements sharded with the SAME randomness and nonce must give
+    // byte-identical input shares for every helper.
+    #[test]
+    fn oracle_helper_shares_independent() {
+        use crate::codec::Encode;
+        for n in [2u8, 3, 4, 5, 6, 8, 9] {
+            // with joint randomness
+            let vdaf: Prio3<SumVec<Field128, ParallelSum<Field128, Mul>>, XofTurboShake128, 32> = Prio3::new(n, 1, 0xFFFF_0001, SumVec::new(2, 3, 2).unwrap()).unwrap();
+            let random: Vec<u8> = (0..vdaf.random_size()).map(|i| (i as u8).wrapping_mul(29).wrapping_add(7)).collect();
+            let nonce = [5u8; 16];
+            let (_, s1) = vdaf.shard_with_random(b"ctx", &vec![0u128, 1, 2], &nonce, &random).unwrap();
+            let (_, s2) = vdaf.shard_with_random(b"ctx", &vec![2u128, 0, 1], &nonce, &random).unwrap();
+            for j in 1..n as usize {
+                if s1[j].get_encoded().unwrap() != s2[j].get_encoded().unwrap() {
+                    println!("COUNTEREXAMPLE Prio3::shard_with_random (SumVec with joint randomness, {} aggregators): the input share of helper {} differs between two measurements sharded with the same randomness - it depends on the measurement", n, j);
+                    return;
+                }
+            }
+            // without joint randomness
+            let vdaf: Prio3<Sum<Field64>, XofTurboShake128, 32> = Prio3::new(n, 2, 0xFFFF_0002, Sum::new(1000).unwrap()).unwrap();
+            let random: Vec<u8> = (0..vdaf.random_size()).map(|i| (i as u8).wrapping_mul(31).wrapping_add(3)).collect();
+            let (_, s1) = vdaf.shard_with_random(b"ctx", &1u64, &nonce, &random).unwrap();
+            let (_, s2) = vdaf.shard_with_random(b"ctx", &999u64, &nonce, &random).unwrap();
+            for j in 1..n as usize {
+                if s1[j].get_encoded().unwrap() != s2[j].get_encoded().unwrap() {
+                    println!("COUNTEREXAMPLE Prio3::shard_with_random (Sum, {} aggregators): the input share of helper {} depends on the measurement", n, j);
+                    return;
+                }
             }
         }
     }
